@@ -258,3 +258,50 @@ def sami_three_langs_full(a0: int, b0: int, c0: int, d0: int, e0: int, f0: int) 
     """
     langs = [("en", [a0 * 1000, b0 * 1000]), ("fr", [c0 * 1000, d0 * 1000]), ("de", [e0 * 1000, f0 * 1000])]
     return _check_sami(_sami_write(langs), langs)
+
+
+# --- SAMI: language codes of which one is a prefix of another (fr / fr-CA), write then read -----------------------
+def sami_prefix_roundtrip(order: int, third: bool) -> str:
+    """
+    pre: 0 <= order < 2
+    post: _ == ""
+    """
+    import pycaption.sami as sm
+    from pycaption import SAMIWriter, SAMIReader
+    from harness.C09_writers import _FakeBS
+    from harness.C11_styles import _bs_html
+    names = ("fr", "fr-CA") if order == 0 else ("fr-CA", "fr")
+    if third:
+        names = names + ("de",)
+    cs = CaptionSet({n: CaptionList([Caption(1000000, 2000000, [CaptionNode.create_text("one " + n + "!")]),
+                                     Caption(3000000, 4000000, [CaptionNode.create_text("two " + n + "!")])]) for n in names})
+    with _FakeBS():
+        doc = SAMIWriter().write(cs)
+    saved = sm.BeautifulSoup
+    sm.BeautifulSoup = _bs_html
+    try:
+        back = SAMIReader().read(doc)
+    finally:
+        sm.BeautifulSoup = saved
+    if sorted(back.get_languages()) != sorted(names):
+        return "languages after SAMI write + read"
+    for n in names:
+        got = [c.get_text() for c in back.get_captions(n)]
+        if got != ["one " + n + "!", "two " + n + "!"]:
+            return "a language's captions contain another language's cues (or lost their own)"
+    return ""
+
+
+def public_sami_prefix_roundtrip(order, third):
+    from pycaption import SAMIWriter, SAMIReader
+    names = ("fr", "fr-CA") if order == 0 else ("fr-CA", "fr")
+    if third:
+        names = names + ("de",)
+    cs = CaptionSet({n: CaptionList([Caption(1000000, 2000000, [CaptionNode.create_text("one " + n + "!")]),
+                                     Caption(3000000, 4000000, [CaptionNode.create_text("two " + n + "!")])]) for n in names})
+    back = SAMIReader().read(SAMIWriter().write(cs))
+    for n in names:
+        got = [c.get_text() for c in back.get_captions(n)] if n in back.get_languages() else None
+        if got != ["one " + n + "!", "two " + n + "!"]:
+            return "language %s reads back as %r" % (n, got)
+    return ""
